@@ -435,6 +435,7 @@ class World:
         self.on_block = None  # hook(timeout) called at every block before waiting
         self.quiescent_ok = False
         self.on_feed = None  # hook run whenever a fake descriptor gains data (trio fd waiters)
+        self.on_self_signal = None  # hook(sig) for os.kill(os.getpid(), sig)
         self.t0 = self.clock.now
 
     # -- bookkeeping ----------------------------------------------------------------------
@@ -700,6 +701,16 @@ def install_global_wrappers() -> None:
             return mode
         return r_setcbreak(fd, when)
 
+    r_kill = _real_os.kill
+
+    def os_kill(pid, sig):
+        # a signal the program sends to itself (urwid's SIGTSTP handler re-raises the signal to get stopped):
+        # decided by the simulated environment when a run has registered for it
+        if _WORLD is not None and _WORLD.on_self_signal is not None and pid == _real_os.getpid():
+            return _WORLD.on_self_signal(sig)
+        return r_kill(pid, sig)
+
+    _real_os.kill = os_kill
     _real_os.read = os_read
     _real_os.write = os_write
     _real_os.close = os_close
